@@ -2052,6 +2052,32 @@ def state_derivation_histories(ctx: Ctx, n_hist: int):
         compile_circuit = compile_parametric_circuit = None
     apply_circuit, quantum_state = st.apply_circuit, st.quantum_state
     rng = ctx.rng
+    try:
+        from quri_parts.core.operator import Operator, pauli_label
+        from quri_parts.qulacs.circuit import convert_parametric_circuit
+        from quri_parts.qulacs.estimator import create_qulacs_vector_estimator, create_qulacs_vector_parametric_estimator
+        est, pest = create_qulacs_vector_estimator(), create_qulacs_vector_parametric_estimator()
+    except Exception:  # noqa: BLE001 - without them the histories are only re-read, not re-used
+        est = pest = convert_parametric_circuit = None
+
+    def outcome(f):
+        """value of a re-USE of a derived object (numbers rounded off only when compared); the library's exceptions are outcomes"""
+        try:
+            return f()
+        except BaseException as e:  # noqa: BLE001
+            if isinstance(e, (KeyboardInterrupt, SystemExit, MemoryError)):
+                raise
+            return "err:" + type(e).__name__
+
+    def close(x, y):
+        if isinstance(x, (list, tuple)) and isinstance(y, (list, tuple)):
+            return len(x) == len(y) and all(close(p_, q_) for p_, q_ in zip(x, y))
+        if isinstance(x, (int, float, complex)) and isinstance(y, (int, float, complex)):
+            return abs(complex(x) - complex(y)) < 1e-9
+        return x == y
+
+    def values(cnt):
+        return [0.3 * (k_ + 1) * (-1) ** k_ for k_ in range(cnt)]
     compiled_known = any(k["property"] == "C20" and k["key"] == KEY_COMPILED for k in load_known_findings())
 
     class RealErr(Exception):
@@ -2087,6 +2113,29 @@ def state_derivation_histories(ctx: Ctx, n_hist: int):
         except Exception as e:  # noqa: BLE001
             return {"error": type(e).__name__}
 
+    def use(o, n):
+        """what a holder of the object gets when it USES it now: estimates a state (through the qulacs vector estimators, which
+        take the compiled-circuit fast path when the state holds a compiled circuit), calls the parameter mapper of a compiled
+        parametric circuit, binds a parametric circuit / state.  Reading gates alone does not show a derived callable or a cached
+        converted circuit that is still tied to the source."""
+        rec = {}
+        c = circuit_of(o)
+        is_state = c is not o
+        par = hasattr(c, "parameter_count") and hasattr(c, "bind_parameters")
+        cnt = outcome(lambda: c.parameter_count) if par else 0
+        vals = values(cnt) if isinstance(cnt, int) else []
+        if hasattr(c, "param_mapper"):
+            rec["param_mapper(values)"] = outcome(lambda: [float(x) for x in c.param_mapper(vals)])
+            rec["qulacs_circuit"] = outcome(lambda: [c.qulacs_circuit.get_gate_count(), c.qulacs_circuit.get_parameter_count()])
+        elif hasattr(c, "qulacs_circuit"):
+            rec["qulacs_circuit"] = outcome(lambda: [c.qulacs_circuit.get_gate_count()])
+        if par:
+            rec["bind_parameters(values)"] = outcome(lambda: [desc(g) for g in circuit_of(o.bind_parameters(vals)).gates])
+        if is_state and est is not None:
+            op = Operator({pauli_label("Z0"): 1.0, pauli_label(f"X{n - 1}"): 0.5, pauli_label(f"Y0 Z{n - 1}" if n > 1 else "Y0"): -0.25})
+            rec["estimate"] = outcome(lambda: complex(pest(op, o, vals).value) if par else complex(est(op, o).value))
+        return rec
+
     def lit(n):
         gs, ds = [], []
         for _ in range(rng.randint(1, 2)):
@@ -2114,14 +2163,34 @@ def state_derivation_histories(ctx: Ctx, n_hist: int):
         # the parametric families.  NOT the non-parametric compile_circuit results (narrow known finding KEY_COMPILED) and not the
         # non-parametric results of get_mutable_copy / + (known finding get_mutable_copy-keeps-is_immutable-flag)
         fresh_mut: set = set()
+        used: list = []   # what using the object gave when it was made (refreshed when the object ITSELF is mutated)
+        calls: list = []  # derived callables: (description, function, argument, first outcome)
 
         def put(o, want, kind, name):
             objs.append(o); exp.append(want); tag.append(kind)
+            with quiet_stderr():
+                used.append(use(o, n))
             log[-1] = f"v{len(objs) - 1} = " + log[-1]
             return len(objs) - 1
 
         def check_all(after: str) -> bool:
             ctx.traces += 1
+            with quiet_stderr():
+                now = [use(o, n) for o in objs]
+            for i, (u0, u1) in enumerate(zip(used, now)):
+                bad = [k_ for k_ in u0 if not close(u0[k_], u1.get(k_))]
+                if bad:
+                    ctx.witness("derived-object-use-changes", f"after `{after}` USING the {tag[i]} v{i} gives something else than when it was made "
+                                "(a derived object kept a live tie to a circuit that was mutated later)",
+                                {"calls": log[:], "values": "0.3, -0.6, 0.9, ... (one per parameter)"},
+                                {"object": f"v{i}", "use": bad[0], "when_made": str(u0[bad[0]])[:300], "now": str(u1.get(bad[0]))[:300]})
+                    return False
+            for what, fn, arg, first in calls:
+                again = outcome(lambda: [float(x) for x in fn(arg)])
+                if not close(first, again):
+                    ctx.witness("derived-object-use-changes", f"after `{after}` the callable `{what}` returns something else than when it was made",
+                                {"calls": log[:], "argument": arg}, {"when_made": str(first)[:300], "now": str(again)[:300]})
+                    return False
             for i, o in enumerate(objs):
                 got = read(o)
                 if got != exp[i]:
@@ -2224,7 +2293,7 @@ def state_derivation_histories(ctx: Ctx, n_hist: int):
                         log.append(f"quantum_state({n}, vector=basis {int(np.argmax(np.abs(v)))}, circuit=v{i})")
                         o = real(lambda: quantum_state(n, vector=v, circuit=c))
                     put(o, want, state_kind(o), "")
-                elif r < 0.42:
+                elif r < 0.46:
                     # mutate a circuit that came from a plain constructor: nothing derived from it may follow.
                     # (a compiled circuit is itself such a mutable object - known finding, replayed separately)
                     cand = [i for i in cs if i in fresh_mut]
@@ -2233,10 +2302,19 @@ def state_derivation_histories(ctx: Ctx, n_hist: int):
                         continue
                     i = rng.choice(comp) if comp and rng.random() < 0.6 else rng.choice(cand)
                     q = rng.randrange(n)
-                    how = rng.choice(["add_S_gate", "add_gate", "extend", "+=", "parametric"])
-                    if how == "parametric" and hasattr(objs[i], "add_parameter"):
-                        how = "add_S_gate"  # (a linear-mapped gate needs one of the circuit's own parameters: model-judged histories)
-                    if how == "add_S_gate":
+                    how = rng.choice(["add_S_gate", "add_gate", "extend", "+=", "parametric", "parametric"])
+                    if how == "parametric" and hasattr(objs[i], "add_parameters"):
+                        # the parametric STRUCTURE of a linear-mapped circuit: a new parameter, a new gate on one of its parameters
+                        ins = list(objs[i].param_mapping.in_params)
+                        if ins and rng.random() < 0.6:
+                            cf = float(rng.choice([-2, -1, 1, 2, 3]))
+                            log.append(f"v{i}.add_ParametricRX_gate({q}, {{<parameter {len(ins) - 1} of v{i}>: {cf}}})")
+                            real(lambda: objs[i].add_ParametricRX_gate(q, {ins[-1]: cf}))
+                            exp[i]["gates"].append(["RX", [q], "unbound"])
+                        else:
+                            log.append(f"v{i}.add_parameters('y')")
+                            real(lambda: objs[i].add_parameters("y"))
+                    elif how == "add_S_gate":
                         log.append(f"v{i}.add_S_gate({q})")
                         real(lambda: objs[i].add_S_gate(q))
                         exp[i]["gates"].append(["S", [q], []])
@@ -2257,12 +2335,26 @@ def state_derivation_histories(ctx: Ctx, n_hist: int):
                             log.append(f"v{i}.extend({ds})")
                             real(lambda: objs[i].extend(tuple(gs)))
                         exp[i]["gates"] += ds
-                elif r < 0.5:
+                    with quiet_stderr():
+                        used[i] = use(objs[i], n)
+                elif r < 0.56:
                     # a circuit from a circuit: freeze() / get_mutable_copy() / + (the source is mutated later, see above)
                     i = rng.choice(cs)
-                    how = rng.choice(["freeze", "freeze", "get_mutable_copy", "+"])
+                    how = rng.choice(["freeze", "freeze", "get_mutable_copy", "+", "convert", "mapper"])
                     par_fam = is_par(i)
-                    if how == "freeze":
+                    if how in ("convert", "mapper") and not (par_fam and hasattr(objs[i], "parameter_count")):
+                        how = "freeze"
+                    if how == "convert" and convert_parametric_circuit is not None:
+                        arg = values(real(lambda: objs[i].parameter_count))
+                        log.append(f"(_, mapper{len(calls)}) = convert_parametric_circuit(v{i})")
+                        fn = real(lambda: convert_parametric_circuit(objs[i]))[1]
+                        calls.append((f"mapper{len(calls)}", fn, arg, outcome(lambda: [float(x) for x in fn(arg)])))
+                    elif how in ("convert", "mapper"):
+                        arg = values(real(lambda: objs[i].parameter_count))
+                        log.append(f"mapper{len(calls)} = v{i}.param_mapping.seq_mapper")
+                        fn = real(lambda: objs[i].param_mapping.seq_mapper)
+                        calls.append((f"mapper{len(calls)}", fn, arg, outcome(lambda: [float(x) for x in fn(arg)])))
+                    elif how == "freeze":
                         log.append(f"v{i}.freeze()")
                         put(real(lambda: objs[i].freeze()), {"n": n, "gates": list(exp[i]["gates"])}, "frozen " + tag[i], "")
                     elif how == "get_mutable_copy":
